@@ -479,7 +479,7 @@ def run_xdr_job(job, scratch):
         shutil.copy(f, d)
     open(os.path.join(d, "XdrVec.cfg"), "w").write("INIT Init\nNEXT Next\nCONSTANT Depth = %d\n" % job["depth"])
     t0 = time.time()
-    p = subprocess.run(["java", "-XX:+UseParallelGC", "-Xss512m", "-Xmx6g", "-cp", JAR, "tlc2.TLC", "-workers", "1", "-metadir",
+    p = subprocess.run(["java", "-XX:+UseParallelGC", "-Xss512m", "-Xmx6g", "-Djava.io.tmpdir=" + d, "-cp", JAR, "tlc2.TLC", "-workers", "1", "-metadir",
                         os.path.join(d, "meta"), "-config", "XdrVec.cfg", "XdrVec.tla"], cwd=d, capture_output=True, text=True, timeout=3000)
     if "No error has been found" not in p.stdout:
         raise Infra("vector generation failed:\n" + p.stdout[-3000:])
@@ -506,7 +506,7 @@ def run_mbt_job(job, scratch):
     d = tempfile.mkdtemp(prefix="mbt-", dir=scratch)
     for f in glob.glob(os.path.join(SPEC, "*.tla")) + glob.glob(os.path.join(SPEC, "*.cfg")):
         shutil.copy(f, d)
-    cmd = ["java", "-XX:+UseParallelGC", "-Xss512m", "-Xmx8g", "-cp", JAR, "tlc2.TLC", "-metadir", os.path.join(d, "meta")]
+    cmd = ["java", "-XX:+UseParallelGC", "-Xss512m", "-Xmx8g", "-Djava.io.tmpdir=" + d, "-cp", JAR, "tlc2.TLC", "-metadir", os.path.join(d, "meta")]
     if job["mode"] == "sim":
         cmd += ["-workers", "1", "-simulate", "num=%d" % job["num"], "-depth", "12", "-seed", str(job["seed"]), "-config", "NfsMC_sim.cfg"]
     else:
